@@ -427,6 +427,7 @@ type Contracts struct {
 	Errors   []string
 	Preds    map[string]*Pred
 	GhostFields map[string]map[string]string // type key (short) -> field -> kind
+	Regexes  []*RegexSpec
 }
 
 // Pred is a named spec macro: pred Name(p *T, x int) = expr
@@ -502,7 +503,7 @@ func (cs *Contracts) parseContractText(pkgPath, file string, text string, baseLi
 			items = append(items, item{baseLine + i, t})
 			continue
 		}
-		isHeader := first == "func" || first == "invariant" || first == "ghostvar" || first == "ghostfield" || first == "alias" || (first == "assume" && strings.HasPrefix(t, "assume func")) ||
+		isHeader := first == "func" || first == "regex" || first == "invariant" || first == "ghostvar" || first == "ghostfield" || first == "alias" || (first == "assume" && strings.HasPrefix(t, "assume func")) ||
 			(first == "pure" && strings.HasPrefix(t, "pure func")) || (first == "assume" && strings.HasPrefix(t, "assume pure func"))
 		if isHeader || clauseKeywords[first] {
 			items = append(items, item{baseLine + i, t})
@@ -545,6 +546,42 @@ func (cs *Contracts) parseContractText(pkgPath, file string, text string, baseLi
 			}
 			pd.Body = e
 			cs.Preds[pd.Name] = pd
+			cur, curInv = nil, nil
+		case first == "regex":
+			// regex Var [tags] language "<pattern>" prefix-free nonempty
+			rest := strings.TrimSpace(strings.TrimPrefix(t, "regex"))
+			f := strings.Fields(rest)
+			if len(f) == 0 {
+				errf("regex VarName [tags] language \"pattern\" prefix-free nonempty")
+				continue
+			}
+			rs := &RegexSpec{Pkg: pkgPath, Var: f[0], File: file, Line: it.line}
+			rest = strings.TrimSpace(rest[len(f[0]):])
+			rs.Tags, rest = parseTags(rest)
+			for rest != "" {
+				switch {
+				case strings.HasPrefix(rest, "language"):
+					rest = strings.TrimSpace(rest[len("language"):])
+					q, err := strconv.QuotedPrefix(rest)
+					if err != nil {
+						errf("regex: language needs a quoted pattern")
+						rest = ""
+						break
+					}
+					rs.Language, _ = strconv.Unquote(q)
+					rest = strings.TrimSpace(rest[len(q):])
+				case strings.HasPrefix(rest, "prefix-free"):
+					rs.PrefixFree = true
+					rest = strings.TrimSpace(rest[len("prefix-free"):])
+				case strings.HasPrefix(rest, "nonempty"):
+					rs.NonEmpty = true
+					rest = strings.TrimSpace(rest[len("nonempty"):])
+				default:
+					errf("regex: unexpected %q", rest)
+					rest = ""
+				}
+			}
+			cs.Regexes = append(cs.Regexes, rs)
 			cur, curInv = nil, nil
 		case first == "ghostfield":
 			// ghostfield T.name kind
